@@ -45,7 +45,28 @@ func TestC04Random(t *testing.T) { propTest(t, "C04") }
 func TestC05Random(t *testing.T) { propTest(t, "C05") }
 func TestC07Random(t *testing.T) { propTest(t, "C07") }
 func TestC08Random(t *testing.T) { propTest(t, "C08") }
-func TestC14Sub(t *testing.T)    { propTest(t, "C14", "subscribers") }
+
+// TestC08Huge: targets with more than 65536 leaves (part "huge"; a handful of cases, each costs seconds).
+func TestC08Huge(t *testing.T) {
+	if !vstat.Enabled("C08") {
+		t.Skip()
+	}
+	rec := vstat.New("C08", "huge")
+	rec.RunRapid(t, func(rt *rapid.T) {
+		sc := genHugeScenario(rt)
+		rec.Current(sc)
+		st, err := run(t, sc, "C08")
+		rec.Case(sc, true, append(st.labels(), "target-with-more-than-65536-leaves")...)
+		if err != nil {
+			class := "oracle"
+			if f, ok := err.(*failure); ok && f.prop == "PANIC" {
+				class = "panic"
+			}
+			rt.Fatalf("%s", rec.Fail(sc, class, "%v", err))
+		}
+	})
+}
+func TestC14Sub(t *testing.T) { propTest(t, "C14", "subscribers") }
 
 // TestReplay re-runs a saved scenario without the library.
 func TestReplay(t *testing.T) {
